@@ -43,8 +43,20 @@ def r1_check_before_mutate(idx, r):
     sts = [s for s in iter_stores(xm.node) if (s.chain or "").startswith("self")]
     okx = len(sts) == 1 and sts[0].kind == "mutcall" and norm(sts[0].stmt) == "self.__dict__.update(other.__dict__)"
     if okx:
-        conds = [norm(t) for t, p in path_conditions(xm.node, sts[0].stmt) if p]
-        okx = len(conds) == 1 and conds[0].startswith("all((v is None for k, v in self.__dict__.items()")
+        condn = [t for t, p in path_conditions(xm.node, sts[0].stmt) if p]
+        okx = len(condn) == 1
+
+        def emptiness_of_self(t):
+            """all(v is None ... self.__dict__.items() ...) directly, or through a local one-return helper applied to self"""
+            if isinstance(t, ast.Call) and dotted(t.func) == "all" and "self.__dict__.items()" in norm(t) and "is None" in norm(t):
+                return True
+            if isinstance(t, ast.Call) and isinstance(t.func, ast.Name) and len(t.args) == 1 and norm(t.args[0]) == "self":
+                h = next((x for x in xm.node.body if isinstance(x, ast.FunctionDef) and x.name == t.func.id), None)
+                if h is not None and h.args.args:
+                    rets = [x for x in ast.walk(h) if isinstance(x, ast.Return) and x.value is not None]
+                    return len(rets) == 1 and isinstance(rets[0].value, ast.Call) and dotted(rets[0].value.func) == "all" and f"{h.args.args[0].arg}.__dict__.items()" in norm(rets[0].value) and "is None" in norm(rets[0].value)
+            return False
+        okx = okx and emptiness_of_self(condn[0])
     r.require(okx, "XSCollection.merge:only-into-empty", xm, msg="cross sections may be copied into the target only when the target holds none; overlapping data must raise")
     r.require(any(isinstance(n, ast.Raise) for n in walk_local(xm.node)), "XSCollection.merge:overlap-raises", xm, msg="two sources of the same kind of data for one nuclide must raise")
     # library merge: direct attribute stores only after every step that can refuse
@@ -256,7 +268,12 @@ def r5_derived(idx, r):
     r.require(okr, "removal-definition", rm, msg=f"removal = absorption - n2n + (column sums of total scatter - diagonal): {sts}")
     ts = idx.method(XSC + ".XSCollection", "getTotalScatterMatrix")
     d = next((s.value for s in iter_stores(ts.node) if isinstance(s.value, ast.Dict)), None)
-    vals = sorted(norm(v) for v in d.values) if d is not None else []
+    def unguarded(v):
+        """`None if x is None else e` / `e if x is not None else None`  ->  e"""
+        if isinstance(v, ast.IfExp) and " is " in norm(v.test) and "None" in norm(v.test):
+            return v.orelse if norm(v.body) == "None" else (v.body if norm(v.orelse) == "None" else v)
+        return v
+    vals = sorted(norm(unguarded(v)) for v in d.values) if d is not None else []
     r.require(vals == ["self.elasticScatter", "self.inelasticScatter", "self.n2nScatter * 2.0"], "total-scatter-members", ts, msg=f"total scatter = elastic + inelastic + 2 x n2n: {vals}")
     rets = [norm(n.value) for n in walk_local(ts.node) if isinstance(n, ast.Return)]
     r.require(rets == ["sum(scatters)"], "total-scatter-is-sum", ts, msg="total scatter is the sum of the available members")
@@ -409,6 +426,39 @@ def r10_merge_builds_fresh(idx, r):
               "FileMetadata:fileNames-from-both-sources-in-a-new-list", md, node=st_[0].stmt, msg="the merged file-name list is a new list holding self's names and the other's")
 
 
+def r11_optional_data_attributes(idx, r):
+    """(a) XSCollection.merge decides 'nothing assigned yet' by looking at the collection's attributes; the attributes it leaves out of that
+    test must be bookkeeping only - leaving out a DATA attribute (one listed in ALL_COLLECTION_DATA) makes a collection holding only that
+    datum look empty, and the merge silently drops or overwrites it.  (b) the optional scattering matrices (None when the library does not
+    carry them) take part in arithmetic only behind their own None test: `None * 2.0` raises before the documented skip can happen."""
+    m = idx.module(XSC)
+    mg = idx.method(XSC + ".XSCollection", "merge")
+    ign = next((s_ for s_ in iter_stores(mg.node) if s_.attr == "attributesToIgnore" and isinstance(s_.value, (ast.List, ast.Tuple, ast.Set))), None)
+    if ign is None:
+        raise AnchorMissing("XSCollection.merge: attributesToIgnore = [...]")
+    data = idx.fold(m, m.consts["ALL_COLLECTION_DATA"])
+    if not isinstance(data, (list, tuple)) or len(data) < 15:
+        raise AnalysisError("ALL_COLLECTION_DATA does not fold to the list of data attributes")
+    ignored = [idx.fold(m, e) for e in ign.value.elts]
+    bad = [a for a in ignored if a in data]
+    r.require(not bad, "merge:emptiness-test-covers-every-data-attribute", mg, node=ign.stmt,
+              msg=f"merge() leaves the data attribute(s) {bad} out of its 'is anything assigned' tests: a collection that holds only {bad} counts as empty - its data are replaced by the other "
+                  "collection's (or the other's are discarded) without any error")
+    gt = idx.method(XSC + ".XSCollection", "getTotalScatterMatrix")
+    n = 0
+    for x in walk_local(gt.node):
+        if isinstance(x, ast.BinOp):
+            opt = [a for a in ast.walk(x) if isinstance(a, ast.Attribute) and norm(a.value) == "self" and a.attr.endswith("Scatter")]
+            for a in opt:
+                n += 1
+                conds = {(norm(t), p) for t, p in path_conditions(gt.node, x)}
+                r.require((f"self.{a.attr} is not None", True) in conds or (f"self.{a.attr} is None", False) in conds, f"getTotalScatterMatrix:{a.attr}:arithmetic-behind-None-test", gt, node=x,
+                          msg=f"`{norm(x)}` is evaluated whether or not self.{a.attr} is None; the later `is not None` test comes too late - a collection without this matrix raises TypeError "
+                              "instead of being summed without it")
+    if n < 1:
+        raise AnchorMissing("getTotalScatterMatrix: arithmetic on an optional scattering matrix")
+
+
 def run(idx, chk):
     chk.explanation = (
         "C10: metadata/collection merges never write into their inputs and raise on conflicts; direct stores into the target library happen only "
@@ -435,3 +485,5 @@ def run(idx, chk):
                  necessary="'different group structures are rejected'; macroscopic data are the density-weighted sums of THE REQUESTED microscopic data")
     chk.run_rule("R10.10", "a merge result never borrows a mutable container of its sources and then changes it in place", lambda r: r10_merge_builds_fresh(idx, r), floor=1,
                  necessary="a rejected merge leaves the target library (metadata included) unchanged")
+    chk.run_rule("R10.11", "merge's emptiness tests leave out bookkeeping only; optional matrices enter arithmetic behind their None test", lambda r: r11_optional_data_attributes(idx, r), floor=2,
+                 necessary="a merge never silently drops data; derived sums skip, not crash on, what a library does not carry")
